@@ -22,6 +22,7 @@ import (
 	"sort"
 	"strings"
 
+	chi "github.com/go-chi/chi/v5"
 	goahttp "goa.design/goa/v3/http"
 	goamw "goa.design/goa/v3/http/middleware"
 
@@ -1054,7 +1055,7 @@ func cleanWire(s string) string {
 	return b.String()
 }
 
-func codecCases(r *vh.RNG, n int, res *vh.Result, out *strings.Builder, distinct vh.Distinct) int {
+func codecCases(r *vh.RNG, n, nRewrite int, res *vh.Result, out *strings.Builder, distinct vh.Distinct) int {
 	idx := 0
 	emit := func(term string) {
 		fmt.Fprintf(out, "(%d%%N, %s)\n", idx, term)
@@ -1114,7 +1115,96 @@ func codecCases(r *vh.RNG, n int, res *vh.Result, out *strings.Builder, distinct
 			res.Count("escapedpath_cases")
 		}
 	}
+	rewriteCases(r, nRewrite, res, emit, distinct)
 	return idx
+}
+
+// rewriteCases: Handle(GET, text) with pattern TEXTS around the wildPath grammar (names over the
+// whole [a-zA-Z0-9_]+, empty names, foreign bytes in or after the name, several catch-alls,
+// missing braces), then a request that reaches the handler: the pattern chi was given and what
+// ResolvePattern rebuilds are compared with the model's rewrite_pattern (the real regexp runs).
+func rewriteCases(r *vh.RNG, n int, res *vh.Result, emit func(string), distinct vh.Distinct) {
+	lits := []string{"a", "b1", "x.y", "f"}
+	vars := []string{"{x}", "{id}", "{0}", "{_}"}
+	names := append(append([]string{}, namePool...), "", "a-b", "p q", "\xc3\xa9", "a}", "{b", "*", "a.b")
+	corpus := []string{"/a/{*x}", "/{*0}", "/a/{*2nd_key}", "/a/{*}", "/a/{*x-y}", "/a/{*x}/b/{*y}", "/a/{x}/{*_}", "/a/{*x", "/a/{* x}", "/a/x{*p}", "/{*__}", "/a/{**}", "/a/{*p}}", "/a/{{*p}"}
+	for i := 0; i < n; i++ {
+		var text string
+		if i < len(corpus) {
+			text = corpus[i]
+		} else {
+			var b strings.Builder
+			for k := r.Intn(4); k > 0; k-- {
+				b.WriteByte('/')
+				if r.Chance(1, 8) {
+					b.WriteString("{*" + vh.Pick(r, names) + "}") // a catch-all that is not last: chi refuses it
+				} else if r.Bool() {
+					b.WriteString(vh.Pick(r, lits))
+				} else {
+					b.WriteString(vh.Pick(r, vars))
+				}
+			}
+			b.WriteByte('/')
+			switch r.Intn(10) {
+			case 0:
+				b.WriteString(vh.Pick(r, lits))
+			case 1:
+				b.WriteString("{*" + vh.Pick(r, names))
+			case 2:
+				b.WriteString(vh.Pick(r, lits) + "{*" + vh.Pick(r, names) + "}")
+			default:
+				b.WriteString("{*" + vh.Pick(r, names) + "}")
+			}
+			text = b.String()
+		}
+		res.Count("rewrite_texts")
+		var chipat, resolved string
+		reached := false
+		func() {
+			defer func() {
+				if recover() != nil {
+					res.Count("rewrite_registration_refused")
+				}
+			}()
+			m := goahttp.NewMuxer()
+			m.Handle("GET", text, func(w http.ResponseWriter, rq *http.Request) {
+				reached = true
+				if ps := chi.RouteContext(rq.Context()).RoutePatterns; len(ps) > 0 {
+					chipat = ps[len(ps)-1]
+				}
+				resolved = m.ResolvePattern(rq)
+			})
+			// a request the registered route matches: every {...} group becomes "zz"
+			var p strings.Builder
+			depth := 0
+			for k := 0; k < len(text); k++ {
+				switch c := text[k]; {
+				case c == '{':
+					if depth == 0 {
+						p.WriteString("zz")
+					}
+					depth++
+				case c == '}' && depth > 0:
+					depth--
+				case depth == 0 && c != '*':
+					p.WriteByte(c)
+				}
+			}
+			rq, err := http.NewRequest("GET", "http://h/", nil)
+			if err != nil {
+				return
+			}
+			rq.URL.Path, rq.URL.RawPath = p.String(), ""
+			m.ServeHTTP(httptest.NewRecorder(), rq)
+		}()
+		if !reached {
+			res.Count("rewrite_not_reached")
+			continue
+		}
+		res.Count("rewrite_observed")
+		distinct.Add("w" + text)
+		emit(fmt.Sprintf("CRewrite %s %s %s", coqB(text), coqB(chipat), coqB(resolved)))
+	}
 }
 
 // ---------------------------------------------------------------- main
@@ -1131,8 +1221,10 @@ func main() {
 	var cases []*Case
 
 	nCodec, nBuilt, nHostile, nWitness := 4000, 7000, 4000, 50
+	nRewrite := 1500
 	if *tier == "thorough" {
 		nCodec, nBuilt, nHostile, nWitness = 100000, 40000, 20000, 50
+		nRewrite = 30000
 	}
 
 	var codec strings.Builder
@@ -1153,7 +1245,7 @@ func main() {
 		}
 		cases = append(cases, rp.Input.Case)
 	} else {
-		codecN = codecCases(rng.Fork(), nCodec, res, &codec, distinct)
+		codecN = codecCases(rng.Fork(), nCodec, nRewrite, res, &codec, distinct)
 
 		// ---- fixed corpus: the witnesses of the recorded findings and their neighbours
 		get := func(p ...Seg) []Seg { return p }
